@@ -286,6 +286,8 @@ func main() {
 		runJobs(w, randomJobs(r, a.Tier))
 		runBlocking(w, a.Tier)
 		runMidScript(w)
+		runOldCoroutines(w)
+		runCtxChainMemory(w)
 		runCustomCtx(w)
 	}
 	if err := w.Close(); err != nil {
@@ -307,6 +309,10 @@ func replay(w *lib.Writer, file string) {
 	switch rp.Input.Kind {
 	case "midscript_remove", "midscript_attach":
 		runMidScript(w)
+	case "midscript_oldco":
+		runOldCoroutines(w)
+	case "midscript_chainmem":
+		runCtxChainMemory(w)
 	case "custom_ctx":
 		runCustomCtx(w)
 	case "block":
